@@ -123,6 +123,12 @@ claim("C18", "model_checking",
       "Parallel tasks are atomic for the shim explorer (safe Rust closures, no shared mutable state on these paths - the explorer re-scans the sources for static/Cell/Atomic/Mutex/unsafe and records the set); (b),(c),(f) observe OS schedules and are conformance passes, not the deciding step. Policies are a finite alphabet (identity, reverse, rotate, odd-before-even, last-first, ...), which orders every pair of tasks / entries both ways.",
       "DESIGN.md §5 C18, E5, E5b, E6")
 
+claim("C02", "model_checking",
+      "exhaustive enumeration of an adversary strategy menu (forced real prover on every violating bound-1 deviation, reference adversarial prover, copy-constraint breaks, solved-for forged evaluations for all 15 slots, all field-wise splices, degenerate proofs, adaptive z without transcript binding) over 8 base circuits x V1/V2/V3, every adversarial proof presented to the real verifier and cross-checked with the reference verifier M2",
+      "S1: every M1-unsatisfied single-wire deviation (pairs in thorough) of each base circuit through the REAL prover forced past its unsatisfied-circuit check (remainder dropped); S2: the same through the reference prover M3 with drop_remainder; S3: assignments that satisfy every row but break one compiled copy constraint (every wire-column pair); S4: proofs of a violated instance with one of the 15 evaluations solved so that the linearisation balances (every slot where the identity is linear; shapes for V1, V2, V3 and for verifiers that would forget that evaluation); S5: every single-field splice, every crossover, every round group of two valid proofs; S6: all-identity / all-generator / z = 1 / identity-witness proofs and wrong PIs; S7: adaptive z(X) betting that z_comm is not absorbed. Every presentation must be rejected with an error under V2 and V3 (never accepted, never a panic); controls and trivial splices must be accepted; the real verdict must equal M2's.",
+      "Decides the enumerated strategy menu on small circuits (n <= 64), not all polynomial-time adversaries. V1 (documented legacy profile) accepts forged SELECTOR evaluations: recorded known finding F5 (signature S4/forged-selector-eval/V1-accepted/*); any other acceptance is a violation. Trusts M1, M2, M3.",
+      "DESIGN.md §5 C02")
+
 ALL = [f"C{i:02d}" for i in range(1, 21)]
 
 def main():
